@@ -140,6 +140,9 @@ class Facts:
             if "error" in d:
                 raise X.AnalysisBroken("compile errors in %s" % tu)
             self._ingest(tu, d)
+        if not os.environ.get("GM2_NO_INLINE"):
+            from .inline import inline_local_lambdas
+            self.inlined = inline_local_lambdas(self.functions)
         self._index()
 
     # ------------------------------------------------------------------
@@ -229,6 +232,17 @@ class Facts:
             for c in cs:
                 if c.get("mg"):
                     self.callers[c["mg"]].add(key)
+        # helpers whose every use was inlined into their callers (gm2verif/inline.py): their code is analysed there
+        cand = {key for key, f in self.functions.items() if f.get("inlined_into") and not self.callers.get(key)
+                and not (f.get("method") or {}).get("lambda")}
+        if cand:
+            for key, f in self.functions.items():
+                roots = [f["body"]] + [i["init"] for i in f.get("inits", ()) if "init" in i]
+                for r in roots:
+                    for n in walk(r):
+                        if n.get("k") == "DeclRefExpr" and n.get("rk") == "Func" and n.get("mg") in cand:
+                            cand.discard(n["mg"])
+        self.superseded = cand
         # class hierarchy
         self.bases = {}
         for t, r in self.records.items():
